@@ -12,7 +12,7 @@ structure Sess where
   dim : Nat := 2
   mask : Nat := 0
   cfg : Cfg Val := stdCfg 3 0
-  m : Map Val := Map.empty 3 6 1
+  m : Map Val := Map.empty 3 stdStorages 1
   inTx : Bool := false
   txOps : Array (P Val String) := #[]
 
@@ -182,7 +182,7 @@ def stepTop (h : Hooks) (s : Sess) (toks : List String) : Sess × String :=
       match dim.toNat?, n.toNat?, mask.toNat? with
       | some dim, some n, some mask =>
           let nb := dim + 1
-          ({ dim := dim, mask := mask, cfg := stdCfg nb mask, m := Map.empty nb 6 (n + 1) }, "ok")
+          ({ dim := dim, mask := mask, cfg := stdCfg nb mask, m := Map.empty nb stdStorages (n + 1) }, "ok")
       | _, _, _ => (s, "bad-op")
   | "load" :: dim :: n :: mask :: rest =>
       match dim.toNat?, n.toNat?, mask.toNat? with
@@ -191,7 +191,7 @@ def stepTop (h : Hooks) (s : Sess) (toks : List String) : Sess × String :=
           let groups := (rest.splitBy (fun a b => a ≠ ";" ∧ b ≠ ";")).filter (· ≠ [";"])
           let nums := groups.map (fun g => g.filterMap String.toNat?)
           if nums.length ≠ nb + 1 ∨ nums.any (fun g => g.length ≠ n + 1) then (s, "bad-op") else
-          let m0 : Map Val := Map.empty nb 6 (n + 1)
+          let m0 : Map Val := Map.empty nb stdStorages (n + 1)
           let m1 := { m0 with
             b := ((nums.take nb).map List.toArray).toArray
             u := ((nums.getD nb []).map (fun x => decide (x ≠ 0))).toArray }
